@@ -70,6 +70,9 @@ def run(ctx):
     with ThreadPoolExecutor(max_workers=common.NCPU) as ex:
         for rr in ex.map(one, jobs):
             ctx.absorb(rr, "c07")
+    # "return the canonical result" holds for every satisfying assignment, not only for the one the shipped hints produce: the gadgets
+    # in isolation on boundary operands with GlGadgets' adversarial alternatives substituted for the prover-supplied values (the C05 part)
+    ctx.absorb(ctx.run_driver("c05", {"part": "gadget", "instance": "testdata"}, tag="gadget"), "c05")
 
 
 def replay(ctx, rec):
